@@ -76,6 +76,11 @@ SigHash(alg) == CASE alg = 5 -> "sha1" [] alg = 7 -> "sha1" [] alg = 8 -> "sha25
 
 (* Judging a recorded Sign: msg = the message packed before signing, out = what *)
 (* Sign returned.  "" = as specified, otherwise the clause that is violated.   *)
+(* The result is a function of the message and of the five fields a caller     *)
+(* sets (f: algorithm, expiration, inception, key tag, signer): whatever else  *)
+(* the SIG value held before the call -- an owner name, class, TTL, type       *)
+(* covered, labels, original TTL, an earlier signature -- has no part in it    *)
+(* (the SIG RR is owned by the root ... see above).                            *)
 (* AMBIG: the statement does not say whether the signer name keeps its case;   *)
 (* both the given and the lower-cased spelling are admitted.                   *)
 LayoutFault(msg, f, out) ==
@@ -118,6 +123,7 @@ View(buf) ==
                   alg    |-> buf[rd + 3],
                   exp    |-> Sub(buf, rd + 9, rd + 12),
                   inc    |-> Sub(buf, rd + 13, rd + 16),
+                  keytag |-> buf[rd + 17] * 256 + buf[rd + 18],
                   signer |-> s.name,
                   signed |-> Sub(buf, rd + 1, s.next) \o PatchAR(Take(buf, w.last), AR(buf) - 1),
                   sig    |-> Drop(buf, s.next),
@@ -129,9 +135,20 @@ View(buf) ==
 (* judged call by call (Trace_Sig0: field `unchanged', "after-" events).        *)
 LE4(a, b) == a = b \/ LexLess(a, b)                   \* unsigned 32-bit values as 4 octets
 (* sigvalid: the primitive accepted view.sig over view.signed under the key    *)
+(* Names are compared as domain names (RFC 4343): label by label, octet by     *)
+(* octet, the 26 ASCII letter pairs alike and nothing else (Bytes!Lower).      *)
 Accept0(v, keyowner, now, sigvalid) ==
   /\ v.ok
   /\ sigvalid
   /\ LowerName(v.signer) = LowerName(keyowner)
   /\ LE4(v.inc, now) /\ LE4(now, v.exp)
+
+(* SIG.Verify is a method of a SIG value rr = [inc, exp, keytag, signer]: the    *)
+(* record unpacked from buf, or -- as the library's own tests do -- the value   *)
+(* the sender signed with, which may have signed other messages with other     *)
+(* windows since.  "The inception-expiration window", the signer and the       *)
+(* signature are those of the SIGNED octets: rr does not occur on the right.   *)
+(* AMBIG: the algorithm (the hash to apply) is taken from rr by the library;   *)
+(* the recorded values carry the algorithm of the message.                     *)
+VerifyOn(rr, buf, keyowner, now, sigvalid) == Accept0(View(buf), keyowner, now, sigvalid)
 =============================================================================
